@@ -457,13 +457,13 @@ func run(c *core.Ctx) {
 
 	// ---- E + F: the concurrent clause (conc.go)
 	t0 = time.Now()
-	nConc := c.N(60, 900)
+	nConc := c.N(300, 3000)
 	core.ParallelFor(nConc, 2, func(i int) {
-		runConcDirectBatch(c, c.SubSeed("conc-direct", i), c.N(12, 16))
+		runConcDirectBatch(c, c.SubSeed("conc-direct", i), c.N(20, 24))
 	})
 	c.Extra("wall_concurrent_direct_s", time.Since(t0).Seconds())
 	t0 = time.Now()
-	nConcPipe := c.N(32, 480)
+	nConcPipe := c.N(64, 640)
 	var cjobs []*concJob
 	for i := 0; i < nConcPipe; i++ {
 		kind := "doif"
